@@ -56,6 +56,8 @@ def check_interval_view(ctx, A, B, blocks, strand, cs, ce, g, what, cst="+"):
     ctx.eq(what + ":guid", str(B.guid), str(A.guid))
     ctx.eq(what + ":identifiers", sorted(map(str, B.identifiers)), sorted(map(str, A.identifiers)))
     ctx.eq(what + ":len", len(B), len(A))
+    if hasattr(B, "blocks"):
+        ctx.eq(what + ":blocks_are_chromosome_blocks", [(b_.start, b_.end) for b_ in B.blocks], rm.loc_blocks(A.chromosome_location))
     ctx.eq(what + ":start_end", (B.start, B.end), (A.start, A.end))
     if hasattr(A, "bin"):
         ctx.eq(what + ":bin", B.bin, A.bin)
@@ -436,6 +438,13 @@ def check_view(spec, ctx):
         _other_question_order(ctx, mktx(o, PB), "transcript", o["exons"], o["strand"], cs, ce, g)
         Bp = A.liftover_to_parent_or_seq_chunk_parent(PB)
         ctx.eq("transcript:relifted_to_dict", norm_dict(Bp.to_dict()), norm_dict(B.to_dict()))
+        # ... and back: the object on the chunk lifted to the whole chromosome is the whole-chromosome twin
+        try:
+            Ap = B.liftover_to_parent_or_seq_chunk_parent(PA)
+            ctx.eq("transcript:lifted_back_to_chromosome:to_dict", norm_dict(Ap.to_dict()), norm_dict(A.to_dict()))
+            ctx.eq("transcript:lifted_back_to_chromosome:spliced_sequence", str(Ap.get_spliced_sequence()), str(A.get_spliced_sequence()))
+        except (BioCantorException, ValueError) as e:
+            ctx.fail("transcript:lift_back_to_chromosome_raises", repr(e)[:120])
     elif kind == "gene":
         A, B = mkgene(o, PA), mkgene(o, PB)
         ctx.nt("collection_on_chunk")
